@@ -290,6 +290,14 @@ pub fn examine_program(text: &str, origin: &str, seed: u64, report: &mut Report)
                         h
                     })
                     .collect();
+                // constant buffers and other bound resources are handed down as well; this monitor models static and groupshared storage only
+                let resource_names: BTreeSet<String> = src_ir
+                    .cbuffer_registry
+                    .iter()
+                    .map(|c| c.name.node.clone())
+                    .chain(src_ir.global_registry.iter().filter(|g| g.storage_class == ir::GlobalStorage::Extern).map(|g| g.name.node.clone()))
+                    .collect();
+                let have: BTreeSet<String> = have.into_iter().filter(|h| want.contains(h) || !resource_names.contains(h)).collect();
                 if have != want {
                     let missing: Vec<&String> = want.difference(&have).collect();
                     let extra: Vec<&String> = have.difference(&want).collect();
